@@ -1555,6 +1555,8 @@ class NPProxy(types.ModuleType):
             else:
                 r = wrap(_np.array(_strip_deep(a), dtype=object))
             if dtype is not None and _np.dtype(dtype) != object:
+                if isinstance(a, _nd) and rd(a) == object and _np.dtype(sd_of(a) if sd_of(a) is not None else infer_sd(a)) == _np.dtype(dtype) and all(isinstance(v, Sym) and not v.is_int for v in base(a).reshape(-1)[:64]):
+                    return a  # numpy does not copy when the dtype already matches: aliasing must be visible to the checks
                 return sym_astype(r, dtype)
             return r
         return tag(_np.asarray(a, dtype=dtype, order=order, **kw))
@@ -1563,6 +1565,8 @@ class NPProxy(types.ModuleType):
         if has_sym(a):
             if isinstance(a, _nd):
                 if dtype is not None and _np.dtype(dtype) != object:
+                    if rd(a) == object and _np.dtype(sd_of(a) if sd_of(a) is not None else infer_sd(a)) == _np.dtype(dtype) and all(isinstance(v, Sym) and not v.is_int for v in base(a).reshape(-1)[:64]):
+                        return a  # no copy, like numpy (only when every element already is an exact real term: nothing to convert)
                     r = sym_astype(wrap(base(a)), dtype)
                     return r
                 return a
